@@ -414,6 +414,12 @@ func (ce *CEnv) evalCall(e *CExpr) Val {
 			fmt.Fprintf(os.Stderr, "origin(%v,%s): calls=%v alts=%v\n", v, args[1].S, st.calls, alts)
 		}
 		return SV{T: Or(alts...)}
+	case "called":
+		st := ce.st
+		if st == nil {
+			st = ce.ex.cur
+		}
+		return SV{T: BoolLit(len(st.calls[args[0].S]) > 0)}
 	case "isnil":
 		v := ce.eval(args[0])
 		return SV{T: ce.ex.valEq(v, SV{T: Zero}, e)}
@@ -458,6 +464,15 @@ func (ex *Exec) valAsSort(v Val, s *Sort) *Term {
 		m := x.materialize()
 		if m.Arr != nil && m.Arr.Sort == s {
 			return m.Arr
+		}
+	case *RefV:
+		// a pointer to an opaque object stands for the object's identity
+		if !x.Nil && x.Cell != nil && ex.cur != nil {
+			if pv, ok := ex.cur.store[x.Cell]; ok && len(x.Path) == 0 {
+				if o, ok := pv.(*ObjV); ok && s == SInt {
+					return o.ID
+				}
+			}
 		}
 	}
 	return nil
